@@ -99,8 +99,16 @@ def verify(run, E, contract, prefix=None, tier=None, crosscheck=True, known=None
         paths = run_contract(E, contract)
     except Unsupported as u:
         E.summaries.update(saved)
+        # undecided: the function left the supported subset.  Fall back to the bounded search for a REAL failing input of
+        # any clause of the same contract (DESIGN 4.5); found => refuted with replay, else undecided.
+        found = _search_any(run, contract)
         with run.obligation(prefix + "#*", "pyvc/smt", [name]) as ob:
-            ob.undecided("unsupported construct: %s" % u)
+            if found:
+                clause, desc, script = found
+                ob.refuted("%s (function outside the supported subset: %s; found by the bounded search)" % (desc, u),
+                           replay_script=script, clause=clause)
+            else:
+                ob.undecided("unsupported construct: %s" % u)
         return {}
     E.summaries.update(saved)
     explore_s = time.time() - t0
@@ -239,6 +247,23 @@ def _search(run, contract, clause, why):
     return ("noinput", "%s; bounded search over %d sample inputs found no failing input" % (why, n), None)
 
 
+def _search_any(run, contract):
+    gen = getattr(contract, "sample_inputs", None)
+    if gen is None:
+        return None
+    import random
+    for inputs in gen(random.Random(run.seed)):
+        try:
+            nat, nc = contract.native_eval(inputs)
+        except Exception:
+            continue
+        for clause, v in (nc or {}).items():
+            if v is False:
+                return (clause, "%s -> %s violates clause '%s'" % (contract.describe(inputs), _nat(nat), clause),
+                        contract.replay_script(inputs, clause))
+    return None
+
+
 def _confirm(run, contract, model, st, clause, out, path):
     """replay a counter-model natively.  Returns (verdict, description, script)."""
     if path.havoc:
@@ -250,7 +275,7 @@ def _confirm(run, contract, model, st, clause, out, path):
     except Exception as ex:
         return _search(run, contract, clause, "counter-model could not be concretised (%r)" % (ex,))
     if inputs is None:
-        return ("noinput", "no native harness for this contract", None)
+        return _search(run, contract, clause, "the counter-model is over ghost state only")
     try:
         nat, nc = contract.native_eval(inputs)
     except Exception as ex:
